@@ -5,6 +5,6 @@ HERE = os.path.dirname(os.path.abspath(__file__))
 
 def all_contracts():
     """-> (registry, field types, lemmas, extra sidecar source files)"""
-    from . import core, spec, lemmas, equality, observers, rewards, filters, queries, rules, instance, generator, plotting, frames, cpsat, graphs, unscheduled  # noqa: F401
+    from . import core, spec, lemmas, equality, observers, rewards, filters, queries, rules, instance, generator, plotting, frames, cpsat, graphs, unscheduled, envs, spaces, features  # noqa: F401
     extra = [os.path.join(HERE, "ghost_src.py")]
     return core.REGISTRY, spec.FIELD_TYPES, lemmas.LEMMAS, extra
